@@ -1123,6 +1123,9 @@ class SpectrumResult:
 
     def __getattr__(self, name: str) -> Any:
         """Lazy computation and caching of spectral properties."""
+        if name.startswith("__") or name in ("_cache", "_data", "_config"):
+            # Not yet initialised (copy/pickle probe a blank instance): no lazy lookup
+            raise AttributeError(name)
         if name in self._cache:
             return self._cache[name]
 
